@@ -153,7 +153,7 @@ func init() {
 		spec := &mc.Spec{
 			Level: "exploration",
 			Rule: "seam A (ptracer.Tracer, scripted Handle): every program of ≤ maxOps operations over {mkdirat, unlinkat, openat(O_CREAT) (traced), getpid (allowed), getuid (neither: the filter kills)} × issuer ∈ {main, forked child, vforked child, thread, grandchild} " +
-				"× every map traced-op → {allow, ban, kill}; seam B (runner/ptrace.Runner, scripted path policy): mkdirat / renameat2 / linkat with every per-path verdict pair. Oracle: reference interpreter of the script (return values from the program's own log, side effects read from the file system after the run). " +
+				"× every map traced-op → {allow, ban, kill} × segment registers {ordinary, %ds/%es = 0x28 (loadable by the program, refused by PTRACE_SETREGS)}; seam B (runner/ptrace.Runner, scripted path policy): mkdirat / renameat2 / linkat with every per-path verdict pair. Oracle: reference interpreter of the script (return values from the program's own log, side effects read from the file system after the run). " +
 				"non-trivial: at least one traced op with a non-allow verdict or a non-main issuer; distinct = (program, issuer, verdict map, observation)",
 			Bound:       map[string]any{"max_ops": maxOps},
 			Assumptions: []string{"programs are sequential (a parent waits for its sub-script), so 'later operation' is well defined", "a filter kill inside a child process ends only that child; the Disallowed Syscall verdict is required only when the main thread group is killed"},
@@ -198,6 +198,12 @@ func c03tracer(x *mc.X, maxOps int) {
 		}
 		desc = append(desc, d)
 	}
+	// register state the program may set up itself: data segment selectors the CPU accepts from user code (0x28 = the user
+	// data descriptor with requested privilege level 0) but PTRACE_SETREGS refuses to write back
+	segs := "ordinary"
+	if n > 0 {
+		segs = x.Pick("segment-registers", "ordinary", "ds-es-0x28")
+	}
 	x.Note("seam", "tracer")
 	x.Note("issuer", issuer)
 	x.Note("program", desc)
@@ -231,6 +237,9 @@ func c03tracer(x *mc.X, maxOps int) {
 	}
 	// all strings are declared first (a sub-process has its own copy of the table); the final traced op by main
 	// (mkdir <dir>/tail, always allowed) shows whether the main process got that far
+	if segs != "ordinary" {
+		script = "D 0x28\n" + script
+	}
 	script = decls.String() + "S " + filepath.Join(dir, "tail") + "\n" + script + "X 258 -100 $" + strconv.Itoa(n) + " 0755\nQ 0\n"
 	// line numbers of X ops
 	lineOf := map[int]int{}
@@ -266,6 +275,9 @@ func c03tracer(x *mc.X, maxOps int) {
 	issuerDead := false // the issuing process was ended (filter kill in a child process)
 	expStatus := runner.StatusNormal
 	ctx := fmt.Sprintf("issuer %s, program %v", issuer, desc)
+	if segs != "ordinary" {
+		ctx += ", %ds/%es loaded with 0x28"
+	}
 	for i, o := range ops {
 		ran := !dead && !issuerDead
 		var effect func() bool
@@ -361,7 +373,7 @@ func c03tracer(x *mc.X, maxOps int) {
 		}
 	}
 	if nontrivial {
-		x.Distinct(fmt.Sprint(issuer, desc, res.Status, rets))
+		x.Distinct(fmt.Sprint(issuer, desc, segs, res.Status, rets))
 	}
 	x.Outcome(fmt.Sprintf("tracer:%s:%s", issuer, statusName(res.Status)))
 }
